@@ -9,7 +9,7 @@ p = os.path.join(VERIF, 'DESIGN.md')
 s = open(p).read()
 start = s.index('### 8.7 Independent seeded changes')
 end = s.index('About the interpreter-exit case')
-rows, missed = [], []
+rows, missed, proactive = [], [], []
 for d in sorted(glob.glob(os.path.join(VERIF, 'seeded', '*', 'meta.json'))):
     m = json.load(open(d))
     c = m.get('check', {})
@@ -17,19 +17,28 @@ for d in sorted(glob.glob(os.path.join(VERIF, 'seeded', '*', 'meta.json'))):
     need = m.get('needs_to_manifest', '').replace('|', '\\|')
     if len(need) > 170:
         need = need[:167] + '...'
-    rows.append('| %s | %s | `%s` | %s%s |' % (m['id'], need, sig, c.get('first_violating_run'), ' (after strengthening)' if m.get('history') else ''))
-    if m.get('history'):
-        missed.append((m['id'], m['history']))
+    h = m.get('history') or ''
+    was_missed = h.startswith('missed') or h.startswith('first run ended in HARNESS-ERROR')
+    was_proactive = 'would have missed it' in h
+    rows.append('| %s | %s | `%s` | %s%s |' % (m['id'], need, sig, c.get('first_violating_run'), ' (after strengthening)' if (was_missed or was_proactive) else ''))
+    if was_missed:
+        missed.append((m['id'], h))
+    elif was_proactive:
+        proactive.append((m['id'], h))
 n = len(rows)
 txt = """### 8.7 Independent seeded changes (`seeded/`, `tools/seed_eval.py`, `bin/selftest seeded`)
 
-%d changes were written in eight rounds by fresh sub-agents that saw only the
+%d changes were written in nine rounds by fresh sub-agents that saw only the
 text of one property and a scratch worktree (nothing from `/verif`; from round 2
 on they were also given a list of the *ideas* already used, so that they would
 look elsewhere; round 4 asked for cooperating edits in two files and at least
 three coinciding conditions; round 6 asked for a *category* of mistake absent
 from the list - data values nobody tests with, interpreter limits, clean-up
-code failing inside clean-up code, caller-owned handles). Each was asked for a realistic change that still
+code failing inside clean-up code, caller-owned handles; round 8 asked for
+size thresholds, numeric edge values, unusual legal spellings and
+empty / single-record inputs; round 9 for error and clean-up paths, optional
+arguments of the public functions, the CLI front-ends and combinations of two
+features that each work alone). Each was asked for a realistic change that still
 compiles, leaves the repository's tests unchanged and needs something specific
 to manifest, with a demonstration. For each one `tools/seed_eval.py` confirmed,
 in scratch worktrees that were removed afterwards: the patch applies to HEAD;
@@ -58,6 +67,14 @@ machinery (the numbers in the table are after that extension):
 
 %s
 
-""" % (n + 1, n, '\n'.join(rows), len(missed), '\n'.join('* `%s`: %s' % (i, h.replace('missed at first: ', '').replace('missed at first ', '')) for i, h in missed))
+%d more were caught only because the workload had been widened in the direction
+of the round's brief while the sub-agents were still writing (the version of
+the check committed before the round would have missed them; they are counted
+apart because the widening was not a reaction to the change itself):
+
+%s
+
+""" % (n + 1, n, '\n'.join(rows), len(missed), '\n'.join('* `%s`: %s' % (i, h.replace('missed at first: ', '').replace('missed at first ', '')) for i, h in missed),
+       len(proactive), '\n'.join('* `%s`: %s' % (i, h) for i, h in proactive))
 open(p, 'w').write(s[:start] + txt + s[end:])
-print('section 8.7 regenerated:', n, 'kept,', len(missed), 'missed at first')
+print('section 8.7 regenerated:', n, 'kept,', len(missed), 'missed at first,', len(proactive), 'closed ahead of evaluation')
